@@ -74,7 +74,7 @@ func (b *Bed) DialTunnelHTTP() (*Peer, net.Conn, net.Conn, error) {
 				break
 			}
 		}
-		get.SetReadDeadline(time.Time{}) //nolint:errcheck
+		get.SetReadDeadline(time.Time{})  //nolint:errcheck
 		time.Sleep(20 * time.Millisecond) // the server registers the GET half after answering it
 		rawPost, err := net.DialTimeout("tcp", host, 3*time.Second)
 		if err != nil {
